@@ -11,6 +11,9 @@ import (
 func genC15(t *rapid.T) RaceCase {
 	rc := RaceCase{Roots: rapid.IntRange(1, 2).Draw(t, "roots"), External: rapid.IntRange(0, 3).Draw(t, "ext") == 0, Warm: rapid.Bool().Draw(t, "warm")}
 	rc.Keys = GenKeys(t, 1, 3, false)
+	if !rc.External && rapid.IntRange(0, 3).Draw(t, "reopened") == 0 {
+		rc.Prefill = rapid.SampledFrom([]int{50, 600, 2000}).Draw(t, "prefill")
+	}
 	ng := rapid.IntRange(3, 8).Draw(t, "goroutines")
 	for g := 0; g < ng; g++ {
 		n := rapid.IntRange(2, 14).Draw(t, "nops")
